@@ -4,6 +4,8 @@ import (
 	"go/token"
 
 	"golang.org/x/tools/go/ssa"
+
+	"olricvet/internal/core"
 )
 
 // pathSearch explores the paths from start inside region and returns the first block
@@ -21,6 +23,12 @@ func pathSearch(start *ssa.BasicBlock, region map[*ssa.BasicBlock]bool, stop ins
 
 // pathSearchFrom is pathSearch for a start block entered over the edge from -> start.
 func pathSearchFrom(from0, start *ssa.BasicBlock, region map[*ssa.BasicBlock]bool, stop instrPred, goal func(b *ssa.BasicBlock) bool, edgeOK func(from, to *ssa.BasicBlock) bool) *ssa.BasicBlock {
+	return pathSearchAssume(from0, start, region, stop, goal, edgeOK, nil)
+}
+
+// pathSearchAssume is pathSearchFrom with the outcome of some boolean values fixed in
+// advance (the comparison whose bad outcome is being followed).
+func pathSearchAssume(from0, start *ssa.BasicBlock, region map[*ssa.BasicBlock]bool, stop instrPred, goal func(b *ssa.BasicBlock) bool, edgeOK func(from, to *ssa.BasicBlock) bool, assume map[ssa.Value]bool) *ssa.BasicBlock {
 	type fact struct {
 		v   ssa.Value
 		nil bool
@@ -99,8 +107,14 @@ func pathSearchFrom(from0, start *ssa.BasicBlock, region map[*ssa.BasicBlock]boo
 					cond, neg = u.X, !neg
 				}
 				// a flag that is a constant on the way taken (phi of constants, bound above)
-				if k, isK := resolve(cond, alias).(*ssa.Const); isK && k.Value != nil && (k.Value.String() == "true" || k.Value.String() == "false") {
+				rc := resolve(cond, alias)
+				if k, isK := rc.(*ssa.Const); isK && k.Value != nil && (k.Value.String() == "true" || k.Value.String() == "false") {
 					if ((k.Value.String() == "true") != neg) != (i == 0) {
+						continue
+					}
+				}
+				if av, fixed := assume[rc]; fixed {
+					if (av != neg) != (i == 0) {
 						continue
 					}
 				}
@@ -140,4 +154,73 @@ func pathSearchFrom(from0, start *ssa.BasicBlock, region map[*ssa.BasicBlock]boo
 	}
 	run(start, from0, map[ssa.Value]bool{}, map[ssa.Value]ssa.Value{}, 0)
 	return found
+}
+
+// edgeOnlyFails: after taking successor idx of block b (a test that found something wrong)
+// the function can only fail: no return that can report success and no way back to b (the
+// next iteration) is reachable. Path sensitive, so the test may feed a flag that is
+// examined later (valid := a && b; if !valid { return err }).
+func edgeOnlyFails(p *core.Prog, b *ssa.BasicBlock, idx int) bool {
+	if idx >= len(b.Succs) {
+		return false
+	}
+	pt := passThrough(p)
+	anyReturn := false
+	hit := pathSearchFrom(b, b.Succs[idx], nil, nil, func(x *ssa.BasicBlock) bool {
+		if x == b {
+			return true
+		}
+		if len(x.Instrs) == 0 {
+			return false
+		}
+		if ret, ok := x.Instrs[len(x.Instrs)-1].(*ssa.Return); ok {
+			anyReturn = true
+			return core.SuccessCapable(ret, pt)
+		}
+		return false
+	}, nil)
+	return hit == nil && anyReturn
+}
+
+// valueOnlyFails: when the boolean value v has the outcome `outcome` the function can only
+// fail from v's block on (no success-capable return, no next iteration of the loop that
+// contains v). Covers both `if v { return err }` and flag := a && v; if !flag { return err }.
+func valueOnlyFails(p *core.Prog, v ssa.Instruction, outcome bool) bool {
+	val, ok := v.(ssa.Value)
+	if !ok {
+		return false
+	}
+	pt := passThrough(p)
+	b := v.Block()
+	// the loop header to which a "continue" would lead: any block that dominates b and is
+	// reachable again from b counts as the next iteration
+	anyReturn := false
+	first := true
+	hit := pathSearchAssume(nil, b, nil, nil, func(x *ssa.BasicBlock) bool {
+		if first {
+			first = false
+			return false
+		}
+		if x == b || (x.Dominates(b) && x != b && hasBackEdge(x)) {
+			return true
+		}
+		if len(x.Instrs) == 0 {
+			return false
+		}
+		if ret, isRet := x.Instrs[len(x.Instrs)-1].(*ssa.Return); isRet {
+			anyReturn = true
+			return core.SuccessCapable(ret, pt)
+		}
+		return false
+	}, nil, map[ssa.Value]bool{val: outcome})
+	return hit == nil && anyReturn
+}
+
+func hasBackEdge(h *ssa.BasicBlock) bool {
+	for _, pr := range h.Preds {
+		if h.Dominates(pr) {
+			return true
+		}
+	}
+	return false
 }
